@@ -59,7 +59,8 @@ var specs = map[string]*propSpec{
 	"C12": mk("C12", []string{"HarnessAttrQuery"}, nil, []string{"attrquery.success", "attrquery.error"},
 		"requested attributes <= 1 / <= 2; user: e-mail, user name and <= 1 / <= 2 custom attributes (profile); the simulated requester signs nothing"),
 	"C13": mk("C13", []string{"HarnessLogout"}, nil, []string{"logout.success", "logout.failure"}),
-	"C14": mk("C14", []string{"HarnessC14"}, nil, []string{"C14.inflated"}),
+	"C14": mk("C14", []string{"HarnessC14"}, nil, []string{"C14.inflated", "C14.padded-request-accepted-when-small"},
+		"payload: padding only, or a complete conformant AuthnRequest / LogoutRequest followed by a padding comment; framing: raw DEFLATE, zlib or gzip; inflated length 0..2^40 (an integer, not a string length)"),
 	"C15": mk("C15", append(append([]string{}, ssoAll...), "HarnessCallback", "HarnessLogout", "HarnessAttrQuery", "HarnessMetadata"), nil, nil,
 		"schedules are not encoded: the property is decided through the reduction of DESIGN §3.7 (no write to provider-lifetime state on any path; replies are terms over the request's own inputs); goroutine-safety of html/template, uuid, crypto/rand and the storage is trusted"),
 	"C16": mk("C16", []string{"HarnessC16", "HarnessSSOACS"}, nil, []string{"C16.empty-list", "C16.by-requested-binding", "C16.by-isDefault", "C16.by-lowest-index"},
